@@ -49,6 +49,10 @@ def run(ctx: core.Ctx) -> int:
     sample += alt
     cases = [to_case(i + 1, g, ctx.seed) for i, g in enumerate(gens + sample)]
     # 3. replay
+    for k_, c_ in enumerate(cases):
+        if k_ % 9 == 4 and not c_["p"].get("dep5"):       # (dep5 lives in the root's .reuse/ only)
+            c_["under"] = "subprojects/lib"
+            c_["label"] = json.dumps({"below-a-Meson-subproject": json.loads(c_["label"])})
     events = ctx.pmap(projmodel.run_project_case, cases, chunksize=16)
     for ev in events[:: max(1, len(events) // 4)][:4]:
         ctx.samples.append({"case": json.loads(ev["label"]), "observed": ev["obs"]["files"]})
